@@ -7,7 +7,7 @@ ID = "C02"
 LEVEL = "proof"
 LEAN_MODULE = "Frost.Props.C02"
 THEOREMS = ["Frost.C02.encodeGroupCommitments_refines", "Frost.C02.bindingFactors_refine",
-            "Frost.C02.groupCommitment_refines", "Frost.C02.interpolatingValue_refines",
+            "Frost.C02.groupCommitment_refines", "Frost.C02.groupCommitment_refines'", "Frost.C02.interpolatingValue_refines",
             "Frost.C02.sigShare_refines", "Frost.C02.challenge_refines", "Frost.C02.aggregate_refines",
             "Frost.C02.identifier_refines", "Frost.C02.nonce_refines", "Frost.C02.signature_encoding"]
 RULE = ("one case = one signing session with every intermediate value compared (nonces from given randomness, commitments, encoded commitment list, binding-factor preimages and factors, group commitment, challenge, interpolating values, shares, serialized signature), one single-signer signature checked both ways, one identifier encoding, or one RFC/BIP vector; "
@@ -174,5 +174,5 @@ def search(sess, disagreements):
 
 LEVEL_TEXT = ("Lean 4 refinement theorems: Frost.Spec transcribes RFC 9591's pseudocode (encode_group_commitment_list, compute_binding_factors, compute_group_commitment as a running sum with one ScalarMult per participant, compute_challenge, derive_interpolating_value as numerator/denominator products, the share formula, aggregate) and the model is proved to return exactly the spec's values (encodeGroupCommitments_refines, bindingFactors_refine, groupCommitment_refines, interpolatingValue_refines, sigShare_refines, challenge_refines, aggregate_refines, identifier_refines, nonce_refines, signature_encoding), for every suite parameter and input on which the spec is defined. "
               "This property IS a correspondence, so it runs at full strength: the same model functions execute on Frost.Ref — a from-scratch Lean implementation of the six ciphersuites (SHA-256/512, SHAKE256, expand_message_xmd, Weierstrass/Edwards/ristretto arithmetic, Taproot) — and every intermediate value (nonces from given randomness, commitments, encoded list, binding-factor preimages and factors, group commitment, challenge, interpolating values, shares, signature bytes, identifier encodings and order) is compared byte-for-byte with the six real crates on inputs outside the RFC vectors (>= 4 signers, hash-derived and arbitrary-scalar identifiers, empty and multi-block messages); single-signer signatures are checked both ways. Frost.Ref alone is pinned on every run to all intermediate values of the 12 RFC 9591 vector files and to the 15 BIP-340 vectors (copies under /verif/vectors); hashes are additionally recomputed with python hashlib.")
-LEVEL_NOTE = ("groupCommitment_refines assumes MsmSound. Trusted: Lean kernel, Mathlib, standard axioms; Frost.Ref as the independent implementation (pinned to the vectors); harness/driver/generators.")
+LEVEL_NOTE = ("groupCommitment_refines assumes MsmSound; groupCommitment_refines' discharges it (msmSound_of_leSound) and assumes only that little_endian_serialize is the fixed-length little-endian encoding (LeSound, compared with the code). Trusted: Lean kernel, Mathlib, standard axioms; Frost.Ref as the independent implementation (pinned to the vectors); harness/driver/generators.")
 TECHNIQUE = "Lean 4 proof (refinement of an RFC-pseudocode spec) + byte-exact differential correspondence against a from-scratch Lean reference pinned to the RFC vectors"
